@@ -1025,6 +1025,46 @@ func (bf *boundsFn) condFacts(cond ssa.Value, truth bool, fs *factSet) {
 					fs.nes = append(fs.nes, bne{a, b})
 				}
 			}
+			// found-case post-condition of Index(s, sep) with a constant separator: once the result is
+			// known >= 0, result + len(sep) <= len(s)
+			for _, side := range [][2]ssa.Value{{x.X, x.Y}, {x.Y, x.X}} {
+				call, isCall := bf.canon(side[0]).(*ssa.Call)
+				if !isCall {
+					if cv, isConv := bf.canon(side[0]).(*ssa.Convert); isConv {
+						call, isCall = bf.canon(cv.X).(*ssa.Call)
+					}
+				}
+				k, isK := constInt(side[1])
+				if !isCall || !isK || call.Call.StaticCallee() == nil {
+					continue
+				}
+				q := qualName(call.Call.StaticCallee())
+				if kk, ok := idxFns[q]; !ok || kk != 0 || len(call.Call.Args) != 2 {
+					continue
+				}
+				sepLen := bf.lenOf(call.Call.Args[1])
+				if !sepLen.ok || sepLen.n != bzero {
+					continue
+				}
+				// which relation about the result was established?
+				rel := op
+				if side[0] == x.Y {
+					switch op {
+					case token.LSS:
+						rel = token.GTR
+					case token.LEQ:
+						rel = token.GEQ
+					case token.GTR:
+						rel = token.LSS
+					case token.GEQ:
+						rel = token.LEQ
+					}
+				}
+				found := (rel == token.NEQ && k == -1) || (rel == token.GTR && k >= -1) || (rel == token.GEQ && k >= 0)
+				if found {
+					le(fs, bf.norm(call), bf.lenOf(call.Call.Args[0]), -sepLen.c)
+				}
+			}
 			return
 		}
 		// err == nil of a module helper: its ok-facts
